@@ -23,6 +23,8 @@ fn run_one(prop: &str, fam: &str, p: &Node) -> Bad {
         "[i32;2]" => go!([i32; 2]),
         "[i64;1]" => go!([i64; 1]),
         "i32" => go!(i32),
+        "[f64;3] tiny" => go!([f64; 3]),
+        "[f32;1] loud" => go!([f32; 1]),
         _ => Some(("prog".into(), format!("unknown family {fam}"))),
     }
 }
@@ -51,7 +53,7 @@ pub fn main_for(prop: &'static str) {
         ctx.finish_replay(catch(|| run_one(prop, &fam, &p)).unwrap_or_else(|e| Some(("panic".into(), e))).map(|x| format!("{}: {}", x.0, x.1)));
     }
     let quick = !ctx.thorough();
-    let fams: [(&str, usize); 7] = [("f32", 1), ("[i16;2]", 2), ("[u8;3]", 3), ("[f64;2]", 2), ("[i32;2]", 2), ("[i64;1]", 1), ("i32", 1)];
+    let fams: [(&str, usize); 9] = [("f32", 1), ("[i16;2]", 2), ("[u8;3]", 3), ("[f64;2]", 2), ("[i32;2]", 2), ("[i64;1]", 1), ("i32", 1), ("[f64;3] tiny", 3), ("[f32;1] loud", 1)];
     let evals = AtomicU64::new(0);
     let nexts = AtomicU64::new(0);
     let mut total_programs = 0usize;
@@ -154,9 +156,9 @@ pub fn main_for(prop: &'static str) {
     ctx.set("programs", json!(total_programs));
     ctx.set("horizon_calls_primary_run", json!(nexts.load(Relaxed)));
     ctx.set("exhaustive", json!(true));
-    ctx.set("exhaustive_scope", json!(format!("every adaptor tree of depth <=2 and every unary stack of depth <={} over the leaf alphabet, 4 frame families; right operands of add_amp/mul_amp are unary stacks of depth <=1 in the companion family; deeper programs are not explored (thorough adds every depth-3 tree over 2 leaves x 2 unary adaptors, about 2.7 million per family)", if quick { 3 } else { 4 })));
+    ctx.set("exhaustive_scope", json!(format!("every adaptor tree of depth <=2 and every unary stack of depth <={} over the leaf alphabet, 9 frame families; right operands of add_amp/mul_amp are unary stacks of depth <=1 in the companion family; deeper programs are not explored (thorough adds every depth-3 tree over 2 leaves x 2 unary adaptors, about 2.7 million per family)", if quick { 3 } else { 4 })));
     if prop == "C04" {
-        ctx.rule("programs: leaves = instrumented probe (length 0..3), from_iter, from_interleaved_samples_iter, equilibrium, gen, gen_mut; unary = map, scale_amp(0.5), scale_amp(-1), scale_amp(0), scale_amp(1), offset_amp, scale_amp_per_channel, offset_amp_per_channel, clip_amp, inspect, delay(0|1|2); scale probes: sources of 7, 9, 70 and 300 frames under every depth-1 program and delays of 31, 255, 256, 257 and 1000 frames below and above every unary adaptor and beside every binary one, delays of 65535, 65536, 65537 frames run to the end in six program shapes, and delay(k) for k in {2^16, 2^16+1, 2^31+1, 2^32, 2^32+3, 2^48+2, 2^63, MAX-1, MAX} observed for its first 40 frames (silence, no pull, not exhausted); binary = add_amp, mul_amp (right operand in the Signed / Float companion family), zip_map; all trees of depth <=2, all unary stacks to depth 3 (quick) / 4 (thorough); families f32, [i16;2], [u8;3], [f64;2], [i32;2], [i64;1] and the bare sample i32 used as a mono frame (the last three with values and clip thresholds that do not fit the Float companion's mantissa); each program run for longest source + total delay + 3 calls: frame n == interpreter (for the integer families the amplitude operations are re-derived with independent arithmetic: add in the Signed companion, multiply in the Float companion with correctly rounded conversions; float families apply the native float addition / multiplication, also beyond full scale (a gain-4 letter in the scale probes); clip_amp also with threshold 0 (everything limited to equilibrium); map / zip_map apply the harness's own closures; clip = clamp of the signed amplitude, delay = k equilibrium frames), every probe pulled exactly once per call and not at all while a delay above it is emitting silence, inspect saw exactly the frames that passed, and for every j <= horizon the program built over a borrowed probe, run j steps and dropped leaves the probe at frame j - delays; non-trivial = a program with at least one adaptor, distinct by (family, program)");
+        ctx.rule("programs: leaves = instrumented probe (length 0..3), from_iter, from_interleaved_samples_iter, equilibrium, gen, gen_mut; unary = map, scale_amp(0.5), scale_amp(-1), scale_amp(0), scale_amp(1), offset_amp, scale_amp_per_channel, offset_amp_per_channel, clip_amp, inspect, delay(0|1|2); scale probes: sources of 7, 9, 70 and 300 frames under every depth-1 program and delays of 31, 255, 256, 257 and 1000 frames below and above every unary adaptor and beside every binary one, delays of 65535, 65536, 65537 frames run to the end in six program shapes, and delay(k) for k in {2^16, 2^16+1, 2^31+1, 2^32, 2^32+3, 2^48+2, 2^63, MAX-1, MAX} observed for its first 40 frames (silence, no pull, not exhausted); binary = add_amp, mul_amp (right operand in the Signed / Float companion family), zip_map; all trees of depth <=2, all unary stacks to depth 3 (quick) / 4 (thorough); families f32, [i16;2], [u8;3], [f64;2], [i32;2], [i64;1] and the bare sample i32 used as a mono frame (the last three with values and clip thresholds that do not fit the Float companion's mantissa), plus two magnitude families: [f64;3] with the lattice scaled by 2^-200 (far below any silence threshold) and [f32;1] scaled by 2^20 (far beyond full scale), every operation still exact; each program run for longest source + total delay + 3 calls: frame n == interpreter (for the integer families the amplitude operations are re-derived with independent arithmetic: add in the Signed companion, multiply in the Float companion with correctly rounded conversions; float families apply the native float addition / multiplication, also beyond full scale (a gain-4 letter in the scale probes); clip_amp also with threshold 0 (everything limited to equilibrium); map / zip_map apply the harness's own closures; clip = clamp of the signed amplitude, delay = k equilibrium frames), every probe pulled exactly once per call and not at all while a delay above it is emitting silence, inspect saw exactly the frames that passed, and for every j <= horizon the program built over a borrowed probe, run j steps and dropped leaves the probe at frame j - delays; non-trivial = a program with at least one adaptor, distinct by (family, program)");
     } else {
         ctx.rule("same program space as C04; per program: is_exhausted() before and after every next() == (calls >= T) with T from the exhaustion algebra (leaf: number of complete frames; unary: forwarded; delay(k): T+k; binary: min), 3 further calls return the interpreter's frames, until_exhausted() and lift() yield exactly T frames then None three times, into_interleaved_samples (iterator, next_sample, and k samples through next_sample followed by the iterator for every k up to 2 x channels + 1) yields exactly T x channels samples in channel order then None, take(n) for n in 0..=T+2 yields exactly n frames with exact len/size_hint; for the programs with at most one adaptor the whole Iterator protocol (nth, skip, step_by, count, last, size_hint after every cursor position) of until_exhausted, take and the interleaved-sample iterator agrees with next(); interleaved sources of every sample count 0..=3N+1; scale probes: delay(k) for k from 2^16 to usize::MAX stays live and silent without touching its source for the first 40 calls, over an empty and a 3-frame source; [i32; N] frames for the listed wide channel counts (byte and 16-bit boundaries included), 0..=3 frames plus 0 / 1 / N-1 trailing samples: from_interleaved_samples_iter, until_exhausted, into_interleaved_samples (both forms), take, add_amp of unequal lengths; non-trivial = a program with at least one adaptor, distinct by (family, program)");
     }
